@@ -635,3 +635,36 @@ Proof.
   intros Hg. unfold fit_general. cbv zeta. rewrite cog_shift by exact Hg. unfold shift_group. rewrite map_map.
   apply map_ext. intros a. cbn [a_pos shift_atom]. rewrite v3sub_shift. reflexivity.
 Qed.
+
+(* ------------------------------------------------------------------ rmsd with atomPermutation *)
+Lemma min_sum_cons s0 w l : min_sum Rops s0 (w :: l) = min_sum Rops (if Rltb w s0 then w else s0) l.
+Proof. reflexivity. Qed.
+Lemma min_sum_le_init s0 l : min_sum Rops s0 l <= s0.
+Proof.
+  revert s0. induction l as [|v l IH]; intros s0; [unfold min_sum; cbn [fold_left]; lra|]. rewrite min_sum_cons.
+  destruct (Rltb v s0) eqn:E; [apply Rltb_true in E; specialize (IH v); lra | apply IH].
+Qed.
+Lemma min_sum_le_each s0 l v : In v l -> min_sum Rops s0 l <= v.
+Proof.
+  revert s0. induction l as [|w l IH]; intros s0 H; [contradiction|]. rewrite min_sum_cons.
+  destruct H as [Hw|H]; [subst w|apply IH, H].
+  destruct (Rltb v s0) eqn:E.
+  - apply min_sum_le_init.
+  - apply Rltb_false in E. pose proof (min_sum_le_init s0 l). lra.
+Qed.
+Lemma cv_rmsd_perm_nil (q : Q4) ref g : cv_rmsd_perm Rops q ref [] g = cv_rmsd Rops q ref g.
+Proof. reflexivity. Qed.
+(* the symmetry-adapted rmsd is the smallest of the rmsd values against the reference and its listed permuted copies *)
+Lemma cv_rmsd_perm_min (q : Q4) ref perms g :
+  cv_rmsd_perm Rops q ref perms g <= cv_rmsd Rops q ref g /\
+  (forall perm, In perm perms ->
+     cv_rmsd_perm Rops q ref perms g <= sqrt (perm_sum Rops (fit_positions Rops q ref g) ref perm / INR (length g))).
+Proof.
+  unfold cv_rmsd_perm, cv_rmsd. cbv zeta. rewrite INR_nofnat. rs.
+  assert (Hn : 0 <= / INR (length g)).
+  { destruct (length g) as [|n]; [cbn; rewrite Rinv_0; lra|]. left. apply Rinv_0_lt_compat, lt_0_INR. lia. }
+  split.
+  - apply sqrt_le_1_alt. unfold Rdiv. apply Rmult_le_compat_r; [exact Hn | apply min_sum_le_init].
+  - intros perm Hp. apply sqrt_le_1_alt. unfold Rdiv. apply Rmult_le_compat_r; [exact Hn|].
+    apply min_sum_le_each. apply in_map. exact Hp.
+Qed.
